@@ -48,7 +48,7 @@ func GenC07(verifSeed uint64, run int) *Scenario {
 		plan.Envs = append(plan.Envs, e)
 		avoid = append(avoid, FakeEpoch.Unix()+e.ClockOffsetS)
 	}
-	w, cfg := GenWorldCfg(g, GenOpts{FixMTime: true, NoSigning: true, AvoidClock: avoid})
+	w, cfg := GenWorldCfg(g, GenOpts{FixMTime: true, NoSigning: true, AvoidClock: avoid, ManyFilesP: 0.06})
 	// negative control: the same configuration without a fixed mtime must
 	// depend on the clock, otherwise the clock seam is not reaching the code
 	probe := cloneTree(cfg).(map[string]any)
